@@ -98,12 +98,14 @@ def equivariant(self, result):
     x = np.asarray(self.x, dtype=float)
     y = np.asarray(self.y, dtype=float)
     r0, r1 = np.asarray(result[0], dtype=float), np.asarray(result[1], dtype=float)
-    for al, be, c, d in ((2.0, 3.0, 1.0, 0.0), (-4.0, 1.0, 1.0, 0.0), (1.0, 0.0, 2.0, -1.0), (0.5, -2.0, 4.0, 8.0)):
+    # the last two maps make the differences between averages tiny relative to their magnitude / tiny in absolute terms
+    for al, be, c, d in ((2.0, 3.0, 1.0, 0.0), (-4.0, 1.0, 1.0, 0.0), (1.0, 0.0, 2.0, -1.0), (0.5, -2.0, 4.0, 8.0),
+                         (1.0, float(2 ** 23), 1.0, 0.0), (float(2 ** -30), 0.0, 1.0, 0.0)):
         s0, s1 = _rerun(self, c * x + d, al * y + be)
         s0, s1 = np.asarray(s0, dtype=float), np.asarray(s1, dtype=float)
         if s0.shape != r0.shape or s1.shape != r1.shape:
             return False
-        if not np.allclose(s0, c * r0 + d, rtol=1e-9, atol=1e-9) or not np.allclose(s1, al * r1 + be, rtol=1e-7, atol=1e-7):
+        if not np.allclose(s0, c * r0 + d, rtol=1e-9, atol=1e-9) or not np.allclose(s1, al * r1 + be, rtol=1e-7, atol=1e-7 * abs(al)):
             return False
     return True
 
@@ -130,3 +132,19 @@ def spline_through_points(self, result):
     y = np.asarray(self.y, dtype=float)
     r = np.asarray(result[1], dtype=float)
     return all(_close(r[q * self.n], y[q]) for q in range(len(y)))
+
+
+def linear(self, result):
+    """C07: the non-adaptive strategies act linearly on the values: R(2u - 3v) == 2 R(u) - 3 R(v), for v = u with one average
+    changed (first, last, middle) - in particular across series that do / do not have equal first and last values"""
+    x = np.asarray(self.x, dtype=float)
+    u = np.asarray(self.y, dtype=float)
+    ru = np.asarray(result[1], dtype=float)
+    for p in sorted({0, len(u) - 1, len(u) // 2}):
+        v = u.copy()
+        v[p] += 1.0
+        rv = np.asarray(_rerun(self, x, v)[1], dtype=float)
+        rw = np.asarray(_rerun(self, x, 2 * u - 3 * v)[1], dtype=float)
+        if rv.shape != ru.shape or rw.shape != ru.shape or not np.allclose(rw, 2 * ru - 3 * rv, rtol=1e-7, atol=1e-7):
+            return False
+    return True
